@@ -18,6 +18,58 @@ from .c16 import compound_ok, compound_padding_err, compound_get_padding
 METHODS = ("calculate_size", "write_into_unchecked", "get_padding")
 
 
+def packet_builder_forwarding(F, D, res, bs):
+    """every method of the PacketBuilder enum, on every variant, is exactly the same method of the wrapped builder on the
+    same buffer (so wrapping a builder changes nothing); returns the number of arms checked"""
+    # ---- PacketBuilder forwarding
+    PB = bs.get("PacketBuilder")
+    n_fw = 0
+    if PB:
+        adt = PB.adt
+        variants = {vd["name"]: F.types[vd["fields"][0]["t"]].get("def") for vd in F.adts[adt]["variants"]}
+        impl_of = {}
+        for a2 in D.impls_of(WRITER_TRAIT):
+            for m in METHODS:
+                impl_of[D.impl_item(WRITER_TRAIT, a2, m)] = (a2, m)
+        for m in METHODS:
+            d = D.impl_item(WRITER_TRAIT, adt, m)
+            I = Interp(F)
+            seen = {}
+
+            def hook(tgt, e, st, args, seen=seen, d=d):
+                if tgt in impl_of and tgt != d:
+                    rv = StructV("<forwarded>", "Call", {"to": FnV(tgt), "recv": args[0], "args": TupV(args[1:])})
+                    return [(st, "val", rv)]
+                return None
+
+            I.call_hook = hook
+            pb = I.symbolic(D.ty_index_of_adt(adt), ("pb",))
+            args = [pb] + ([SliceV(BUF, 0, Lin.atom(("len", BUF)))] if m == "write_into_unchecked" else [])
+            try:
+                outs = I.inline(d, None, State(), args)
+            except Unmodelled as ex:
+                res.unmodelled(d, str(ex))
+                continue
+            got = set()
+            for s, k, r in outs:
+                var = [l[1][3] for l in s.pc if l[0] == "b" and isinstance(l[1], tuple) and l[1][0] == "variant" and l[2] is True]
+                vname = var[0] if var else None
+                okf = isinstance(r, StructV) and r.adt == "<forwarded>" and vname in variants
+                if okf:
+                    to = r.fields["to"].fn
+                    tadt, tm = impl_of.get(to, (None, None))
+                    recv = r.fields["recv"]
+                    okf = tadt == variants[vname] and tm == m and isinstance(recv, StructV) and recv.adt == tadt
+                    if okf and m == "write_into_unchecked":
+                        a1 = r.fields["args"].items
+                        okf = len(a1) == 1 and isinstance(a1[0], SliceV) and a1[0].base == BUF and a1[0].start == lin(0) and a1[0].end == Lin.atom(("len", BUF))
+                res.ob(bool(okf), "forwarding", d, f"PacketBuilder::{m} on variant {vname} is exactly {m} of the wrapped builder (same buffer)", detail=repr(r)[:200], pc=s.pc)
+                got.add(vname)
+                n_fw += 1
+            res.ob(got == set(variants), "forwarding", d, f"PacketBuilder::{m} handles every variant", detail=str(sorted(set(variants) - got)))
+    return n_fw
+
+
 def run(ctx, res):
     F = ctx.F
     D = Disc(F)
@@ -84,52 +136,7 @@ def run(ctx, res):
                 n += 1
         # get_padding: the last member's
         n += compound_get_padding(F, B, res)
-    # ---- PacketBuilder forwarding
-    PB = bs.get("PacketBuilder")
-    n_fw = 0
-    if PB:
-        adt = PB.adt
-        variants = {vd["name"]: F.types[vd["fields"][0]["t"]].get("def") for vd in F.adts[adt]["variants"]}
-        impl_of = {}
-        for a2 in D.impls_of(WRITER_TRAIT):
-            for m in METHODS:
-                impl_of[D.impl_item(WRITER_TRAIT, a2, m)] = (a2, m)
-        for m in METHODS:
-            d = D.impl_item(WRITER_TRAIT, adt, m)
-            I = Interp(F)
-            seen = {}
-
-            def hook(tgt, e, st, args, seen=seen, d=d):
-                if tgt in impl_of and tgt != d:
-                    rv = StructV("<forwarded>", "Call", {"to": FnV(tgt), "recv": args[0], "args": TupV(args[1:])})
-                    return [(st, "val", rv)]
-                return None
-
-            I.call_hook = hook
-            pb = I.symbolic(D.ty_index_of_adt(adt), ("pb",))
-            args = [pb] + ([SliceV(BUF, 0, Lin.atom(("len", BUF)))] if m == "write_into_unchecked" else [])
-            try:
-                outs = I.inline(d, None, State(), args)
-            except Unmodelled as ex:
-                res.unmodelled(d, str(ex))
-                continue
-            got = set()
-            for s, k, r in outs:
-                var = [l[1][3] for l in s.pc if l[0] == "b" and isinstance(l[1], tuple) and l[1][0] == "variant" and l[2] is True]
-                vname = var[0] if var else None
-                okf = isinstance(r, StructV) and r.adt == "<forwarded>" and vname in variants
-                if okf:
-                    to = r.fields["to"].fn
-                    tadt, tm = impl_of.get(to, (None, None))
-                    recv = r.fields["recv"]
-                    okf = tadt == variants[vname] and tm == m and isinstance(recv, StructV) and recv.adt == tadt
-                    if okf and m == "write_into_unchecked":
-                        a1 = r.fields["args"].items
-                        okf = len(a1) == 1 and isinstance(a1[0], SliceV) and a1[0].base == BUF and a1[0].start == lin(0) and a1[0].end == Lin.atom(("len", BUF))
-                res.ob(bool(okf), "forwarding", d, f"PacketBuilder::{m} on variant {vname} is exactly {m} of the wrapped builder (same buffer)", detail=repr(r)[:200], pc=s.pc)
-                got.add(vname)
-                n_fw += 1
-            res.ob(got == set(variants), "forwarding", d, f"PacketBuilder::{m} handles every variant", detail=str(sorted(set(variants) - got)))
+    n_fw = packet_builder_forwarding(F, D, res, bs)
     res.floor("compound checks", n, 8)
     res.floor("PacketBuilder forwarding arms", n_fw, 24)
     res.analysed = {"compound_checks": n, "forwarding_arms": n_fw}
